@@ -72,6 +72,11 @@ func (c *MustacheTokenizer) ReadNextToken() *tokenizers.Token {
 	// Proces other tokens
 	c.special = false
 	token := c.AbstractTokenizer.ReadNextToken()
+	// An Unknown last token type marks a fresh reader (see above);
+	// an Unknown token inside a tag must not be mistaken for it.
+	if c.LastTokenType == tokenizers.Unknown {
+		c.LastTokenType = tokenizers.Symbol
+	}
 	// Switch to quote when '{{' or '{{{' symbols found
 	if token != nil && (token.Value() == "}}" || token.Value() == "}}}") {
 		c.special = true
